@@ -267,9 +267,31 @@ def check_foreign(report, prog, cls_qname, dev_attr='device'):
     return hits
 
 
+def rule_lock_identity(report, prog, cls_qname):
+    """R6: mutual exclusion needs one lock: the frontend's lock object is created in __init__ and never replaced -- a thread that
+    took the old object and a thread that takes the new one exclude nobody."""
+    cls = prog.cls(cls_qname)
+    writers = []
+    for fn in prog.functions.values():
+        if fn.owner_class is cls:
+            for st in walk_no_nested(fn.node):
+                tg = st.targets if isinstance(st, ast.Assign) else [st.target] if isinstance(st, (ast.AugAssign, ast.AnnAssign)) else \
+                    st.targets if isinstance(st, ast.Delete) else []
+                for t in tg:
+                    for x in ast.walk(t):
+                        if isinstance(x, ast.Attribute) and norm(x) == 'self.lock':
+                            writers.append((fn, st))
+    bad = [(fn, st) for fn, st in writers if fn.name != '__init__']
+    report.check(bool(writers) and not bad, 'C15-R6', key(cls_qname, 'the lock object is created once, in __init__'),
+                 bad[0][0].loc(bad[0][1]) if bad else cls_qname,
+                 '%s replaces self.lock (`%s`): threads holding the previous lock object are no longer excluded'
+                 % (bad[0][0].qname if bad else '', norm(bad[0][1]) if bad else ''))
+
+
 def run(report, prog, tier):
     check_frontend(report, prog, FRONTEND, floor=18)
     check_foreign(report, prog, FRONTEND)
+    rule_lock_identity(report, prog, FRONTEND)
     # canary: the rule must separate the fixture twins
     from ..core import Report
     from ..fixtures import fixture_program
@@ -290,6 +312,7 @@ def run(report, prog, tier):
 
 CLF = 'nfc.clf'
 MUTANTS = [
+    ('open-installs-a-fresh-lock', 'nfc.clf', "        self.close()\n\n        # Acquire the lock and search for a device on *path*", "        self.lock = threading.Lock()\n        self.close()\n\n        # Acquire the lock and search for a device on *path*", 'C15-R6'),
     ('max-send-size-lock-free-alias', CLF, """        with self.lock:
             if self.device is None:
                 raise IOError(errno.ENODEV, os.strerror(errno.ENODEV))
